@@ -131,3 +131,18 @@ def run_kernels(chk, items, parallel=None):
         reap(True)
     for idx in sorted(results):
         _apply(chk, results[idx])
+
+
+ELEMENT_API = {"Absolute", "Add", "Bytes", "Equal", "Invert", "IsNegative", "Mult32", "Multiply", "Negate", "One", "Pow22523", "Select", "Set", "SetBytes", "SetWideBytes",
+               "SqrtRatio", "Square", "Subtract", "Swap", "Zero"}
+SCALAR_API = {"Add", "Subtract", "Negate", "Multiply", "MultiplyAdd", "Invert", "Set", "Equal", "Bytes", "SetBytesWithClamping", "SetCanonicalBytes", "SetUniformBytes"}
+
+
+def api_surface(chk, prog, recv, covered, claim):
+    """the property quantifies over 'every operation': the exported methods are enumerated from the SSA of the current
+    source; one that no harness of this check covers leaves the check undecided (a new operation needs a new harness)"""
+    from sym.check import Ob
+    prefix = {"Element": "(*filippo.io/edwards25519/field.Element).", "Scalar": "(*filippo.io/edwards25519.Scalar).", "Point": "(*filippo.io/edwards25519.Point)."}[recv]
+    methods = sorted(f["short"] for n, f in prog.funcs.items() if n.startswith(prefix) and f.get("exported") and not f.get("external"))
+    unknown = [m for m in methods if m not in covered]
+    chk.add(Ob("API surface: every exported method of %s (%d, enumerated from SSA) is covered by %s" % (recv, len(methods), claim), "unsat" if not unknown else "uncovered:%s" % unknown, 0, [], "API surface from SSA"))
